@@ -277,6 +277,39 @@ pub fn run_pipeline(
     (term_given, cmd_result)
 }
 
+/// Close the descriptors the shell holds for stage `idx_cmd` alone, i.e. what
+/// the parent branch of `run_single_program` closes after a successful start.
+/// Used when the stage cannot be started.
+fn release_stage_fds(
+    idx_cmd: usize,
+    pipes: &[(RawFd, RawFd)],
+    fds_stdin: Option<(RawFd, RawFd)>,
+    captured_last_stage: bool,
+    fds_capture_stdout: &Option<(RawFd, RawFd)>,
+    fds_capture_stderr: &Option<(RawFd, RawFd)>,
+) {
+    if let Some(fds) = fds_stdin {
+        libs::close(fds.0);
+        libs::close(fds.1);
+    }
+    if idx_cmd < pipes.len() {
+        libs::close(pipes[idx_cmd].1);
+    }
+    if idx_cmd > 0 {
+        libs::close(pipes[idx_cmd - 1].0);
+    }
+    if captured_last_stage {
+        if let Some(fds) = fds_capture_stdout {
+            libs::close(fds.0);
+            libs::close(fds.1);
+        }
+        if let Some(fds) = fds_capture_stderr {
+            libs::close(fds.0);
+            libs::close(fds.1);
+        }
+    }
+}
+
 /// Run a single command.
 /// e.g. the `sort -k2` part of `ps ax | sort -k2 | head`
 #[allow(clippy::needless_range_loop)]
@@ -314,6 +347,8 @@ fn run_single_program(
             Ok(fds) => fds_stdin = Some(fds),
             Err(e) => {
                 println_stderr!("cicada: pipeline4: {}", e);
+                release_stage_fds(idx_cmd, pipes, None, idx_cmd == pipes_count && capture,
+                                  fds_capture_stdout, fds_capture_stderr);
                 return 1;
             }
         }
@@ -602,6 +637,8 @@ fn run_single_program(
 
         Err(_) => {
             println_stderr!("Fork failed");
+            release_stage_fds(idx_cmd, pipes, fds_stdin, idx_cmd == pipes_count && capture,
+                              fds_capture_stdout, fds_capture_stderr);
             *cmd_result = CommandResult::error();
             0
         }
